@@ -162,7 +162,8 @@ pub fn run_scenario(sc: &Scenario) -> RunOutcome {
         let (sched, docs, sources, stylers) = (sched.clone(), docs.clone(), sources.clone(), stylers.clone());
         let h = std::thread::Builder::new()
             .name(format!("sim-{}", tid))
-            .stack_size(16 << 20)
+            // embedders call from threads of all sizes: a third of the threads get a small stack
+            .stack_size(if (sc.seed as usize + tid) % 3 == 0 { 2 << 20 } else { 16 << 20 })
             .spawn(move || {
                 let s2 = sched.clone();
                 typstyle_core::verif::install(Box::new(move |site| {
